@@ -439,7 +439,8 @@ func randFieldOptions(r *rand.Rand, f *ir.File, c *ir.Config) {
 	if r.Intn(6) == 0 {
 		// custom type through configuration (full path), singular non-message field
 		for _, o := range occ {
-			if o.Field.Kind == ir.KScalar && o.Field.Card == ir.Single && o.Field.Oneof < 0 && o.Field.CustomType == "" {
+			// custom-type children of a nullable embed are finding D3b (isolated in K11(5))
+			if o.Field.Kind == ir.KScalar && o.Field.Card == ir.Single && o.Field.Oneof < 0 && o.Field.CustomType == "" && o.Msg.Name != "FlatPart" {
 				c.CustomTypes = map[string]string{o.Path: "verif/types.Joined"}
 				if r.Intn(2) == 0 {
 					c.Suffixes = map[string]string{"verif/types.Joined": "Joined"}
